@@ -50,11 +50,17 @@ def so3_group(rep):
 
 def se3_group(rep):
     L = groups()
+    if rep in ("dcm", "euler"):         # user-built: the class is generic over the SO(3) parameterisation
+        from harness.lie import group_of
+        return group_of({"g": "SE3", "rep": rep})
     return {"quat": L.SE3Quat, "mrp": L.SE3Mrp}[rep]
 
 
 def se23_group(rep):
     L = groups()
+    if rep in ("dcm", "euler"):
+        from harness.lie import group_of
+        return group_of({"g": "SE23", "rep": rep})
     return {"quat": L.SE23Quat, "mrp": L.SE23Mrp}[rep]
 
 
